@@ -8,6 +8,7 @@ import (
 	"strings"
 
 	"github.com/miekg/dns"
+	"github.com/semihalev/sdns/config"
 )
 
 // terminationMarginMs is how much later than the configured per-query timeout a
@@ -20,7 +21,7 @@ var midBudgets = []uint32{14, 18, 24, 32, 48, 64, 96}
 
 func dnssecKind(k string) bool {
 	switch k {
-	case "huge-ds", "huge-dnskey", "huge-rrsig", "keycrowd", "nsec3-iter":
+	case "huge-ds", "huge-dnskey", "huge-rrsig", "keycrowd", "nsec3-iter", "nsec3-deep":
 		return true
 	}
 	return false
@@ -41,7 +42,7 @@ func classOf(kind string) string {
 		return "lame"
 	case "huge-ns", "huge-ds", "huge-dnskey", "huge-rrsig", "keycrowd":
 		return "huge-set"
-	case "nsec3-iter":
+	case "nsec3-iter", "nsec3-deep":
 		return "nsec3-iterations"
 	}
 	return "other"
@@ -88,12 +89,37 @@ func stackConfigs(rng *rand.Rand, t *TopoSpec) []StackCfg {
 	ed := base
 	ed.Label, ed.Mode = "enforce-default", "enforce"
 	if dnssecKind(t.Kind) || (t.Signed && rng.IntN(3) == 0) {
+		// constrain ONE DNSSEC dimension (the others keep their defaults, so
+		// that its crossing is not masked by another one that comes first);
+		// the kind built to stress a dimension mostly gets that dimension
 		ed.Label = "enforce-dnssec"
-		ed.MaxSigs = pick(rng, uint32(1), 2, 4, 8, 0)
-		ed.MaxDS = pick(rng, uint32(1), 2, 4, 0)
-		ed.MaxN3 = pick(rng, uint32(1), 2, 4, 8, 0)
-		ed.MaxCandidates = pick(rng, uint32(1), 2, 0)
-		ed.MaxRRsetSigs = pick(rng, uint32(1), 2, 0)
+		dim := pick(rng, "sigs", "ds", "n3", "candidates", "rrset")
+		if rng.IntN(3) != 0 {
+			switch t.Kind {
+			case "nsec3-iter", "nsec3-deep":
+				dim = "n3"
+			case "keycrowd":
+				dim = "candidates"
+			case "huge-rrsig":
+				dim = "rrset"
+			case "huge-ds":
+				dim = pick(rng, "ds", "candidates")
+			case "huge-dnskey":
+				dim = pick(rng, "sigs", "ds")
+			}
+		}
+		switch dim {
+		case "sigs":
+			ed.MaxSigs = pick(rng, uint32(1), 2, 4, 8)
+		case "ds":
+			ed.MaxDS = pick(rng, uint32(1), 2, 4)
+		case "n3":
+			ed.MaxN3 = pick(rng, uint32(1), 2)
+		case "candidates":
+			ed.MaxCandidates = pick(rng, uint32(1), 2)
+		case "rrset":
+			ed.MaxRRsetSigs = pick(rng, uint32(1), 2)
+		}
 	}
 	return []StackCfg{off, sh, es, em, ed}
 }
@@ -103,6 +129,8 @@ type stackResult struct {
 	q1, q2 *QueryObs
 	// overrun: queries of this run whose packet count exceeded the budget
 	overrun []*QueryObs
+	// fw: the effective (normalised) firewall configuration of the stack
+	fw config.RecursionFirewallConfig
 }
 
 func (s *stackResult) watchdog() bool {
@@ -146,7 +174,7 @@ func (run *runner) runStack(w *world, cfg StackCfg) *stackResult {
 		return nil
 	}
 	defer st.close()
-	res := &stackResult{cfg: cfg}
+	res := &stackResult{cfg: cfg, fw: st.rs.Cfg.RecursionFirewall}
 	res.q1 = st.ask("127.0.0.1:40001", w.spec.Question)
 	if !res.q1.Watchdog {
 		// the identical question from another client
@@ -530,6 +558,24 @@ func (run *runner) judgeReplies(w *world, res *stackResult, prior *stackResult) 
 				fmt.Sprintf("%s under %s: query %d (%s) caused %d packets at the scripted servers (tcp %d, after the reply %d) with max_outbound_queries=%d; ledger debits %d",
 					spec.shape(), cfg.Label, qi+1, obs.Query, obs.Packets, obs.TCPPackets, obs.AfterReply, budget, obs.Debits)+
 					fmt.Sprintf(" — confirmed: the previous fresh stack with the same configuration logged %d packets for %s", prior.overrun[0].Packets, prior.overrun[0].Query), c)
+		}
+		// the DNSSEC operations the tree's ledger accepted (its own count,
+		// published on release) against the configured aggregate budgets;
+		// only when exactly one ledger was published in the window
+		if obs.Trees == 1 {
+			fw := res.fw
+			for op, lim := range map[string]uint32{"signature_checks": fw.MaxSignatureChecks, "ds_digests": fw.MaxDSDigests, "nsec3_hashes": fw.MaxNSEC3Hashes} {
+				n := obs.DNSSECOps[op]
+				if n > 0 {
+					r.Count("enforce_trees_with_"+op, 1)
+				}
+				if lim > 0 {
+					r.Max("max_"+op+"_pct_of_budget", 100*n/int64(lim))
+					if n > int64(lim) {
+						r.Violation("enforce/dnssec-ops-exceed-budget", fmt.Sprintf("%s under %s: the ledger of query %d (%s) accounted %d %s with a budget of %d", spec.shape(), cfg.Label, qi+1, obs.Query, n, op, lim), c)
+					}
+				}
+			}
 		}
 		if obs.budgetEDE {
 			if !obs.servfail() || len(obs.reply.Answer) > 0 {
